@@ -121,7 +121,12 @@ def alteration_task(ctx, variant_index, thorough, part, nparts):
     for idx, (direction, m) in enumerate(msgs):
         positions = range(len(m)) if thorough else sorted(set(list(range(0, min(8, len(m)))) + [rnd.randrange(len(m)) for _ in range(40)] + [len(m) - 1]))
         for pos in positions:
-            for mask in (0x01, 0x80, 0xFF):
+            # the four header bytes (type, 24-bit length) decide how the byte stream is cut into messages: every bit of them, and every
+            # shorter / longer length that differs in the low byte; elsewhere three masks
+            masks = (0x01, 0x80, 0xFF) if pos >= 4 else ((0x01, 0x02, 0x04, 0x08, 0x10, 0x20, 0x40, 0x80, 0xFF) if (pos < 3 or not thorough) else tuple(range(1, 256)))
+            if pos == 3 and not thorough:
+                masks = tuple(sorted(set(masks + (0x03, 0x0F, 0x18, 0x30, 0x3F, 0x60, 0x7F))))
+            for mask in masks:
                 n += 1
                 if n % nparts != part:
                     continue
@@ -409,6 +414,15 @@ def agreement_case(ctx, case):
         ctx.violation(
             "handshake-completed-without-common-option",
             "configurations share no %s but %s reported HandshakeCompleted" % ("cipher suite" if not common_suite else "QUIC version" if not common_ver else "ALPN protocol", "both endpoints" if c_done and s_done else ("the client" if c_done else "the server")),
+            rcase,
+        )
+        return
+    if compatible and not case["fates"] and not (c_done and s_done):
+        ctx.violation(
+            "compatible-configurations-do-not-complete-on-a-lossless-network",
+            "suites %r/%r, versions %r/%r (original %r), ALPN %r/%r, leaf %s, resume=%s, retry=%s: client completed=%s, server completed=%s; client close %r, server close %r"
+            % (case["c_suites"], case["s_suites"], case["c_versions"], case["s_versions"], case["c_original"], case["c_alpn"], case["s_alpn"], case["leaf"], case["resume"], case["retry"], c_done, s_done,
+               getattr(sim.ep["c"].conn, "_close_event", None), getattr(sim.ep["s"].conn, "_close_event", None)),
             rcase,
         )
         return
